@@ -10,7 +10,7 @@ from capi import Lib
 from vlib import Oracle, build_lib
 
 PID = "c03"
-THEOREMS = ['C03_roundtrip', 'C03_lossless_partial', 'C03_compressFrame_roundtrip', 'C03_history_extension']
+THEOREMS = ["C03_lossless", "C03_lossless_nodict", "C03_compressFrame_lossless", "C03_frame_is_bytes", "C03_roundtrip", "C03_compressFrame_roundtrip", "C03_history_extension", "C03_update_fuel_suffices", "C03_legal_session"]
 ORACLES = ["framec"]
 CORRESPONDENCE = [
     "FrameC model == LZ4F_compressBegin*/compressUpdate/uncompressedUpdate/flush/compressEnd (return value and every output byte of every call)",
@@ -31,10 +31,12 @@ TRUSTED = ["hand-written model Model/FrameC.v of the LZ4F compression API, tied 
            "covered by the run-time validation of every real block against the model's history, not by proof",
            "block compressors appear only through the contract blk_ok (C01/C06/C11/C12 are the properties that establish it); it is re-validated on every block of every run",
            "destination capacities are always the documented bounds (capacity errors are property C10's)",
-           "the decoder-chunking half of the property (LZ4F_decompress under any split) is a direct oracle on sampled chunkings, not a theorem here (decoder model: C08/C19)",
+           "the decoder half of C03_lossless is about Model.FrameD (hand-written model of LZ4F_decompress, tied to the code by c08.py's per-call comparison; history relocation inside tmpOutBuffer abstracted there); "
+           "the real LZ4F_decompress under sampled chunkings remains a direct oracle of this check",
            "Spec/FrameSpec.v, Spec/BlockSpec.v, Spec/XXH32.v render the format documents faithfully"]
 ASSUMPTIONS = ["preferences enums within their declared values (blockSizeID in {0,4..7}, blockMode/checksum flags in {0,1})",
-               "LZ4F_uncompressedUpdate only with independent blocks (documented)", "malloc succeeds", "total input < 2^64 bytes"]
+               "LZ4F_uncompressedUpdate only with independent blocks (documented)", "malloc succeeds", "total input < 2^64 bytes",
+               "C03_lossless: input bytes and block compressor output are byte values 0..255 (blk_bytes); decoder context at the start of a frame"]
 
 def build(tier):
     return {"lib": build_lib("framec"), "case_timeout": 1800}
